@@ -263,3 +263,15 @@ def dmdc_line(f, W, Uh):
 
 def dmdc_tag(f):
     return {'kind': 'dmdc', 'r_hat': f['rh'], 'r_tld': f['rt'], 'p_theta': f['pt'], 'p_upsilon': f['pu'], 'alpha': f['alpha']}
+
+
+def num(rng, v):
+    """a scalar hyper-parameter in another valid form: Python number, numpy scalar, 0-d array element, int when integral"""
+    r = rng.random()
+    if r < 0.5:
+        return v
+    if r < 0.7:
+        return np.float64(v)
+    if r < 0.85 and float(v).is_integer():
+        return int(v)
+    return np.array(float(v))[()]
